@@ -227,10 +227,14 @@ def joinWith (sep : List UInt8) : List (List UInt8) → List UInt8
   | [x] => x
   | x :: rest => x ++ sep ++ joinWith sep rest
 
-def keyText : KeyVal → List UInt8
-  | .str s => quoted s
-  | .int n => [34] ++ intText n ++ [34]
-  | .bool b => if b then [34, 116, 114, 117, 101, 34] else [34, 102, 97, 108, 115, 101, 34]
+/-- a map key as the string it becomes -/
+def keyString : KeyVal → List UInt8
+  | .str s => s
+  | .int n => intText n
+  | .bool b => if b then [116, 114, 117, 101] else [102, 97, 108, 115, 101]
+
+/-- how a map key is written (digits and the literals need no escaping) -/
+def keyText (k : KeyVal) : List UInt8 := quoted (keyString k)
 
 mutual
 def Val.render : Val → List UInt8
